@@ -5,6 +5,7 @@ import Driver.OpsIeee
 import Driver.OpsCodec
 import Driver.OpsTables
 import Driver.OpsFrame
+import Driver.OpsTmplText
 import Driver.OpsLocal
 import Driver.OpsFind
 import Driver.OpsDump
@@ -24,6 +25,7 @@ structure St where
   codec : CodecSt := {}
   tbl : TblSt := {}
   frame : FrameSt := {}
+  tt : TTSt := {}
   dump : DumpSt := {}
   lt : LtSt := {}
   find : FindSt := {}
@@ -57,6 +59,9 @@ def step (st : St) (line : String) : St × String :=
   | none =>
   match stepDump st.tm st.codec st.dump toks with
   | some (t, c, d, o) => ({ st with tm := t, codec := c, dump := d }, o)
+  | none =>
+  match stepTmplText st.tm st.tt toks with
+  | some (t, s, o) => ({ st with tm := t, tt := s }, o)
   | none => (st, "bad-op")
 
 partial def loop (h : IO.FS.Stream) (out : IO.FS.Stream) (st : St) : IO Unit := do
